@@ -66,6 +66,8 @@ def main():
             info = {}
         notes = (info.get("registry") or {}).get("notes") or []
         build_info["translator_notes"] = notes
+        # decision expressions: source text the translator followed at each site ("FALLBACK: ..." = not followed, tie by correspondence only)
+        build_info["decision_sites"] = info.get("decisions")
         build_info["tables_changed"] = info.get("changed")
         rc, out = (0, "") if dev_skip else H.lake_build(["indi-model"])
         if rc != 0:
@@ -201,6 +203,7 @@ def main():
                 "known_findings_hit": len(known_hits),
                 "exhaustive": bool(spec.get("exhaustive", False)),
                 "translator_notes": build_info.get("translator_notes"),
+                "decision_sites_followed_by_the_translator": build_info.get("decision_sites"),
                 "library_files_changed_since_baseline": build_info.get("library_files_changed"),
                 "build_seconds": round(build_s, 2),
             },
